@@ -310,6 +310,18 @@ fn case_async(rng: &mut Rng, pools: &mut Pools, rep: &mut Report, case_no: u64) 
         ad.wait_without_tl();
         failure = check("the final wait_without_tl()", disp, waits, &calls);
     }
+    // the handle goes away while a dispatch is in flight: the request was made, it is carried out
+    if failure.is_none() && rng.chance(1, 3) {
+        ad.dispatch();
+        disp += 1;
+        calls.push("dispatch, then the dispatcher is dropped at once".into());
+        drop(ad);
+        let done = wait_until(std::time::Instant::now() + std::time::Duration::from_secs(8), || check("", disp, waits, &calls).is_none());
+        if !done {
+            failure = check("dropping the dispatcher right after dispatch() (8 s later)", disp, waits, &calls);
+        }
+        rep.metric("handles_dropped_in_flight", 1);
+    }
     ctx.set_mode(Mode::Build);
     let _ = ctx.take_violations();
     if let Some((k, m)) = failure {
